@@ -21,6 +21,7 @@ HARNESS = {
     "C13": "c13_c19",
     "C14": "c14_c16",
     "C16": "c14_c16",
+    "C15": "c15",
     "C19": "c13_c19",
 }
 
@@ -61,6 +62,8 @@ def main(argv):
     )
     for ln in lines:
         print(ln)
+    if cov["unexplored_prefixes_at_budget"]:
+        print("BUDGET: %d path prefixes were still unexplored when the time budget (%ss) ran out - the verdict covers the explored paths only" % (cov["unexplored_prefixes_at_budget"], cov["budget_s"]))
     if code == 0:
         print("OK property=%s held on everything explored (bounded)" % prop)
     elif code == 3:
